@@ -519,20 +519,19 @@ Section Renaming.
         + exact K4.
         + rewrite P5, B5, K5, !map_app. reflexivity.
         + exact Hdn.
-        + intros H. apply andb_true_iff in H. destruct H as [H H4]. apply andb_true_iff in H. destruct H as [H H3].
-          apply andb_true_iff in H. destruct H as [H1 H2]. rewrite (P10 H1), (C3 H2), (B9 H3), (K9 H4). reflexivity.
+        + intros H. apply andb_true_iff in H. destruct H as [H H4]. apply andb_true_iff in H. destruct H as [H1 H3].
+          rewrite (P10 H1), (B9 H3), (K9 H4). reflexivity.
         + intros H. apply andb_true_iff in H. destruct H as [H H5]. apply andb_true_iff in H. destruct H as [H H4].
-          apply andb_true_iff in H. destruct H as [H H3]. apply andb_true_iff in H. destruct H as [H1 H2].
-          rewrite (P10 H1), (C3 H2), (B9 H3), (C4 H4), (K10 H5). reflexivity.
+          apply andb_true_iff in H. destruct H as [H1 H3].
+          rewrite (P10 H1), (B9 H3), (C4 H4), (K10 H5). reflexivity.
         + intros H. apply andb_true_iff in H. destruct H as [H H3]. apply andb_true_iff in H. destruct H as [H1 H2].
           rewrite (P7 H1), (B11 H2), (K11 H3). reflexivity.
         + intros H. apply andb_true_iff in H. destruct H as [H _]. apply andb_true_iff in H. destruct H as [H H4].
-          apply andb_true_iff in H. destruct H as [H H3]. apply andb_true_iff in H. destruct H as [H1 H2].
-          rewrite (P13 H1), (C3 H2), (B12 H3), (K12 H4). reflexivity.
+          apply andb_true_iff in H. destruct H as [H1 H3].
+          rewrite (P13 H1), (B12 H3), (K12 H4). reflexivity.
         + intros H. apply andb_true_iff in H. destruct H as [H _]. apply andb_true_iff in H. destruct H as [H H5].
-          apply andb_true_iff in H. destruct H as [H H4]. apply andb_true_iff in H. destruct H as [H H3].
-          apply andb_true_iff in H. destruct H as [H1 H2].
-          rewrite (P13 H1), (C3 H2), (B12 H3), (C4 H4), (K13 H5). reflexivity.
+          apply andb_true_iff in H. destruct H as [H H4]. apply andb_true_iff in H. destruct H as [H1 H3].
+          rewrite (P13 H1), (B12 H3), (C4 H4), (K13 H5). reflexivity.
       - unfold RR. cbn [resolve lexdecls vardecls headdecls allnames default_names params_only catch_params_only core_d pcore_d core core_x pcore_x app].
         repeat apply conj; try discriminate.
         + rewrite C1, C2, K1, !map_app. reflexivity.
@@ -541,20 +540,19 @@ Section Renaming.
         + exact K4.
         + rewrite P5, B5, K5, !map_app. reflexivity.
         + exact Hdn.
-        + intros H. apply andb_true_iff in H. destruct H as [H H4]. apply andb_true_iff in H. destruct H as [H H3].
-          apply andb_true_iff in H. destruct H as [H1 H2]. rewrite (P10 H1), (C3 H2), (B9 H3), (K9 H4). reflexivity.
+        + intros H. apply andb_true_iff in H. destruct H as [H H4]. apply andb_true_iff in H. destruct H as [H1 H3].
+          rewrite (P10 H1), (B9 H3), (K9 H4). reflexivity.
         + intros H. apply andb_true_iff in H. destruct H as [H H5]. apply andb_true_iff in H. destruct H as [H H4].
-          apply andb_true_iff in H. destruct H as [H H3]. apply andb_true_iff in H. destruct H as [H1 H2].
-          rewrite (P10 H1), (C3 H2), (B9 H3), (C4 H4), (K10 H5). reflexivity.
+          apply andb_true_iff in H. destruct H as [H1 H3].
+          rewrite (P10 H1), (B9 H3), (C4 H4), (K10 H5). reflexivity.
         + intros H. apply andb_true_iff in H. destruct H as [H H3]. apply andb_true_iff in H. destruct H as [H1 H2].
           rewrite (P7 H1), (B11 H2), (K11 H3). reflexivity.
         + intros H. apply andb_true_iff in H. destruct H as [H H4].
-          apply andb_true_iff in H. destruct H as [H H3]. apply andb_true_iff in H. destruct H as [H1 H2].
-          rewrite (P13 H1), (C3 H2), (B12 H3), (K12 H4). reflexivity.
+          apply andb_true_iff in H. destruct H as [H1 H3].
+          rewrite (P13 H1), (B12 H3), (K12 H4). reflexivity.
         + intros H. apply andb_true_iff in H. destruct H as [H H5].
-          apply andb_true_iff in H. destruct H as [H H4]. apply andb_true_iff in H. destruct H as [H H3].
-          apply andb_true_iff in H. destruct H as [H1 H2].
-          rewrite (P13 H1), (C3 H2), (B12 H3), (C4 H4), (K13 H5). reflexivity.
+          apply andb_true_iff in H. destruct H as [H H4]. apply andb_true_iff in H. destruct H as [H1' H3].
+          rewrite (P13 H1'), (B12 H3), (C4 H4), (K13 H5). reflexivity.
     }
     split.
     - intros e fs cur ca n rest Hok HD Hinc. cbn [allnames app] in Hinc. cbn [resolve].
@@ -608,15 +606,15 @@ Section Renaming.
       apply DN_app; [exact (DN_names [TBind n true g])|].
       rewrite P5, B5, <- Hnp, <- Hnb. apply DN_app; [apply DN_names|]. apply DN_app; [apply DN_names|exact K6].
     - intros H. apply andb_true_iff in H. destruct H as [H H5]. apply andb_true_iff in H. destruct H as [H H4].
-      apply andb_true_iff in H. destruct H as [H H3]. apply andb_true_iff in H. destruct H as [H1' H2].
-      rewrite (P13 H1'), (C3 H2), (B12 H3), (K12 H4). cbn [andb]. apply negb_true_iff. apply mem_not_in.
+      apply andb_true_iff in H. destruct H as [H1' H3].
+      rewrite (P13 H1'), (B12 H3), (K12 H4). cbn [andb]. apply negb_true_iff. apply mem_not_in.
       rewrite P4, B3, B2, <- !map_app.
       apply (newname_notin (TBind n true g)); [exact Dg|apply Hinc; left; reflexivity|exact C5|].
       apply negb_true_iff in H5. apply mem_not_in. exact H5.
     - intros H. apply andb_true_iff in H. destruct H as [H H6]. apply andb_true_iff in H. destruct H as [H H5].
-      apply andb_true_iff in H. destruct H as [H H4]. apply andb_true_iff in H. destruct H as [H H3].
-      apply andb_true_iff in H. destruct H as [H1' H2]. apply andb_true_iff in H6. destruct H6 as [H6 H7].
-      rewrite (P13 H1'), (C3 H2), (B12 H3), (C4 H4), (K13 H5). cbn [andb]. apply andb_true_iff. split; apply negb_true_iff; apply mem_not_in.
+      apply andb_true_iff in H. destruct H as [H H4]. apply andb_true_iff in H. destruct H as [H1' H3].
+      apply andb_true_iff in H6. destruct H6 as [H6 H7].
+      rewrite (P13 H1'), (B12 H3), (C4 H4), (K13 H5). cbn [andb]. apply andb_true_iff. split; apply negb_true_iff; apply mem_not_in.
       + rewrite P4, B3, B2, <- !map_app.
         apply (newname_notin (TBind n true g)); [exact Dg|apply Hinc; left; reflexivity|exact C5|].
         apply negb_true_iff in H6. apply mem_not_in. exact H6.
